@@ -96,6 +96,12 @@ package libinjection
 //@   loop 1 invariant [C17] forall k in [old(h.pos), pos): !cdEndAt(h, k)
 //@   loop 1 decreases h.len - pos
 
+//@ spec noLtEq(h *h5State) bool = forall k in [0, h.len): h.s[k] != '<' && h.s[k] != '='
+// ---- C15: without '<' and '=' the machine stays in states that cannot emit a firing token
+//@ spec safeTok(h *h5State) bool = h.tokenType == html5TypeDataText || h.tokenType == html5TypeAttrName || h.tokenType == html5TypeTagNameClose || h.tokenType == html5TypeTagNameSelfClose
+//@ spec safeState(h *h5State) bool = h.state == h.stateEOF || h.state == h.stateData || h.state == h.stateBeforeAttributeName || h.state == h.stateSelfClosingStartTag ||
+//@      h.state == h.stateTagNameClose || h.state == h.stateAfterAttributeName || h.state == h.stateAfterAttributeValueQuotedState
+
 // ---- stream potential: every emitted token lies at or after lowB(old), ends at or before
 // lowB(new), and strictly increases potQ; potQ <= len+1 bounds the number of tokens.
 //@ spec streamOK(h *h5State, lo int) bool = tokOK(h) && lo <= tokOff(h) && tokOff(h) + h.tokenLen <= lowB(h) && lowB(h) <= h.len
@@ -160,6 +166,7 @@ package libinjection
 //@   ensures  [C17] @stream result ==> streamOK(h, old(h.pos) - 1) && potQ(h) >= old(h.pos) + 1
 //@   ensures  [C17] @selfclose old(h.pos) < h.len && h.s[old(h.pos)] == '>' ==> result && h.tokenType == html5TypeTagNameSelfClose &&
 //@                 tokOff(h) == old(h.pos) - 1 && h.tokenLen == 2 && h.pos == old(h.pos) + 1 && h.state == h.stateData
+//@   ensures  [C15] @safe noLtEq(h) && result ==> safeState(h) && safeTok(h)
 
 //@ func (*h5State).stateTagNameClose
 //@   requires wfM(h) && h.pos < h.len
@@ -169,6 +176,7 @@ package libinjection
 //@   ensures  result && wfH(h) && !h.isClose
 //@   ensures  [C17] @token h.tokenType == html5TypeTagNameClose && tokOK(h) && tokOff(h) == old(h.pos) && h.tokenLen == 1 && h.pos == old(h.pos) + 1 &&
 //@                 h.state == (h.pos < h.len ? h.stateData : h.stateEOF)
+//@   ensures  [C15] @safe safeState(h) && safeTok(h)
 
 // ---- tag name: ends at the first white / '/' / '>' (NULs are part of the name)
 //@ spec tagNameEnd(c int) bool = isWS(c) || c == '/' || c == '>'
@@ -218,6 +226,7 @@ package libinjection
 //@                 ((h.state == h.stateEOF && old(h.pos) + h.tokenLen == h.len) ||
 //@                  (h.state == h.stateTagOpen && h.s[old(h.pos) + h.tokenLen] == '<' && h.pos == old(h.pos) + h.tokenLen + 1))
 //@   ensures  (old(h.pos) >= h.len ==> !result) && (!result ==> h.pos >= h.len)
+//@   ensures  [C15] @safe noLtEq(h) ==> h.state == h.stateEOF && (result ==> h.tokenType == html5TypeDataText)
 
 //@ func (*h5State).stateAttributeValueNoQuote
 //@   requires wfM(h)
@@ -250,6 +259,7 @@ package libinjection
 //@   ensures  wfH(h)
 //@   ensures  !result ==> h.pos == h.len
 //@   ensures  [C17] @stream result ==> streamOK(h, old(h.pos)) && potQ(h) >= old(h.pos) + 2
+//@   ensures  [C15] @safe noLtEq(h) && result ==> safeState(h) && safeTok(h)
 
 // ---- attribute name: ends at the first white / '/' / '=' / '>' after its first byte
 //@ spec attrNameEnd(c int) bool = isWS(c) || c == '/' || c == '=' || c == '>'
@@ -267,6 +277,7 @@ package libinjection
 //@   loop 1 invariant old(h.pos) + 1 <= pos && pos <= h.len && unchangedH(h)
 //@   loop 1 invariant [C17] forall k in [old(h.pos) + 1, pos): !attrNameEnd(h.s[k])
 //@   loop 1 decreases h.len - pos
+//@   ensures  [C15] @safe noLtEq(h) ==> safeState(h) && safeTok(h)
 
 //@ func (*h5State).stateBeforeAttributeName
 //@   requires wfH(h) && midState(h)
@@ -279,6 +290,7 @@ package libinjection
 //@   ensures  [C17] @stream result ==> streamOK(h, old(h.pos)) && potQ(h) >= old(h.pos) + 2
 //@   loop 1 invariant old(h.pos) <= h.pos && h.pos <= h.len && h.state == old(h.state) && h.isClose == old(h.isClose)
 //@   loop 1 decreases h.len - h.pos
+//@   ensures  [C15] @safe noLtEq(h) && result ==> safeState(h) && safeTok(h)
 
 //@ func (*h5State).stateAfterAttributeValueQuotedState
 //@   requires wfH(h) && midState(h)
@@ -288,6 +300,7 @@ package libinjection
 //@   ensures  wfH(h) && h.isClose == old(h.isClose)
 //@   ensures  !result ==> h.pos == h.len
 //@   ensures  [C17] @stream result ==> streamOK(h, old(h.pos)) && potQ(h) >= old(h.pos) + 2
+//@   ensures  [C15] @safe noLtEq(h) && result ==> safeState(h) && safeTok(h)
 
 // ---- quoted value: from just after the opening quote (or offset 0 in a quote context)
 // to the first matching quote
@@ -311,6 +324,7 @@ package libinjection
 //@   rank     3
 //@   ensures  result && wfH(h) && h.isClose == old(h.isClose) && h.tokenType == html5TypeAttrValue
 //@   ensures  [C17] @stream streamOK(h, old(h.pos)) && potQ(h) >= old(h.pos) + 1
+//@   ensures  [C15] @safe h.state == h.stateEOF || h.state == h.stateAfterAttributeValueQuotedState
 //@ func (*h5State).stateAttributeValueDoubleQuote
 //@   requires wfM(h) && (h.pos == 0 || h.pos < h.len)
 //@   modifies h.pos, h.state, h.tokenStart, h.tokenLen, h.tokenType
@@ -318,6 +332,7 @@ package libinjection
 //@   rank     3
 //@   ensures  result && wfH(h) && h.isClose == old(h.isClose) && h.tokenType == html5TypeAttrValue
 //@   ensures  [C17] @stream streamOK(h, old(h.pos)) && potQ(h) >= old(h.pos) + 1
+//@   ensures  [C15] @safe h.state == h.stateEOF || h.state == h.stateAfterAttributeValueQuotedState
 //@ func (*h5State).stateAttributeValueBackQuote
 //@   requires wfM(h) && (h.pos == 0 || h.pos < h.len)
 //@   modifies h.pos, h.state, h.tokenStart, h.tokenLen, h.tokenType
@@ -325,6 +340,7 @@ package libinjection
 //@   rank     3
 //@   ensures  result && wfH(h) && h.isClose == old(h.isClose) && h.tokenType == html5TypeAttrValue
 //@   ensures  [C17] @stream streamOK(h, old(h.pos)) && potQ(h) >= old(h.pos) + 1
+//@   ensures  [C15] @safe h.state == h.stateEOF || h.state == h.stateAfterAttributeValueQuotedState
 
 //@ func (*h5State).init
 //@   requires h.pos == 0 && h.tokenLen == 0 && !h.isClose
@@ -342,6 +358,7 @@ package libinjection
 //@   ensures  wfH(h)
 //@   ensures  [C02 C17] @progress result ==> potQ(h) >= old(potQ(h)) + 1
 //@   ensures  [C17] @stream result ==> streamOK(h, old(lowB(h)))
+//@   ensures  [C15] @safe noLtEq(h) && (old(safeState(h)) || old(quoteState(h))) && result ==> safeState(h) && (safeTok(h) || (h.tokenType == html5TypeAttrValue && old(quoteState(h))))
 
 // =====================================================================================
 // XSS classifier
@@ -382,12 +399,261 @@ package libinjection
 //@   loop 1 invariant -1 <= rangeindex && rangeindex < 4
 //@   loop 1 decreases 4 - rangeindex
 
-//@ spec noLtEq(h *h5State) bool = forall k in [0, h.len): h.s[k] != '<' && h.s[k] != '='
 //@ func isXSS
 //@   requires flags in {html5FlagsDataState, html5FlagsValueNoQuote, html5FlagsValueSingleQuote, html5FlagsValueDoubleQuote, html5FlagsValueBackQuote}
 //@   modifies nothing
-//@   loop 1 invariant wfH(h5) && h5.s == input
-//@   loop 1 decreases h5.len + 1 - potQ(h5)
+//@   ensures  [C15] @no_lt_eq (forall i in [0, len(input)): input[i] != '<' && input[i] != '=') ==> !result
+//@   loop 1 invariant wfH(h5) && aliases(h5.s, input)
+//@   loop 1 invariant [C15] noLtEq(h5) ==> (safeState(h5) || quoteState(h5)) && (quoteState(h5) ==> attr == attributeTypeNone)
+//@   loop 1 decreases [C02 C17] h5.len + 1 - potQ(h5)
 
 //@ func IsXSS
 //@   modifies nothing
+//@   ensures  [C15] @no_lt_eq (forall i in [0, len(input)): input[i] != '<' && input[i] != '=') ==> !result
+
+// =====================================================================================
+// SQLi tokenizer
+// =====================================================================================
+
+//@ spec wfT(t *sqliToken) bool = 0 <= t.len && t.len <= 31 && t.len == len(t.val) && 0 <= t.pos &&
+//@      (t.category == sqliTokenTypeFunction ==> t.len >= 2)
+//@ spec zeroT(t *sqliToken) bool = t.category == 0 && t.len == 0 && t.pos == 0 && t.count == 0 && t.strOpen == 0 && t.strClose == 0 && len(t.val) == 0
+//@ spec curOK(s *sqliState) bool = 0 <= tvIndex(s, s.current) && tvIndex(s, s.current) < 8
+//@ spec wfS0(s *sqliState) bool = 0 <= s.pos && s.pos <= s.length && s.length == len(s.input) && curOK(s)
+//@ spec wfS(s *sqliState) bool = wfS0(s) && wfT(s.tokenVec[0]) && wfT(s.tokenVec[1]) && wfT(s.tokenVec[2]) && wfT(s.tokenVec[3]) &&
+//@      wfT(s.tokenVec[4]) && wfT(s.tokenVec[5]) && wfT(s.tokenVec[6]) && wfT(s.tokenVec[7])
+//@ spec statsOK(s *sqliState) bool = 0 <= s.statsTokens && s.statsTokens <= s.pos && 0 <= s.statsCommentHash && s.statsCommentHash <= 2 * s.pos &&
+//@      0 <= s.statsCommentDDX && s.statsCommentDDX <= s.pos
+//@ spec statsStep(s *sqliState) bool = s.statsTokens == old(s.statsTokens) && s.statsFolds == old(s.statsFolds) &&
+//@      old(s.statsCommentHash) <= s.statsCommentHash && s.statsCommentHash <= old(s.statsCommentHash) + 2 &&
+//@      old(s.statsCommentDDX) <= s.statsCommentDDX && s.statsCommentDDX <= old(s.statsCommentDDX) + 1
+//@ spec sameScan(s *sqliState) bool = aliases(s.input, old(s.input)) && s.length == old(s.length) && s.flags == old(s.flags) && s.current == old(s.current)
+//@ spec inSigma(c int) bool = c in {'k','U','B','E','t','f','n','1','v','s','o','&','c','A','(',')','{','}','.',',',':',';','T','?','X','F','\\'}
+//@ spec isWhiteSQL(c int) bool = c == ' ' || c == 9 || c == 10 || c == 11 || c == 12 || c == 13 || c == 160 || c == 0
+
+// A token produced by one scan step that started at offset p and returned r: a faithful,
+// clipped slice of the input inside [p, r).
+//@ spec faithful(s *sqliState, t *sqliToken, p int, r int) bool = inSigma(t.category) && p <= t.pos && t.pos + t.len <= r && t.len <= 31 &&
+//@      t.len == len(t.val) && (aliases(t.val, s.input[t.pos : t.pos + t.len]) || (t.len == 1 && t.val[0] == s.input[t.pos]))
+//@ spec stepOK(s *sqliState, p int, r int) bool = p < r && r <= s.length &&
+//@      (s.current.category != 0 ==> faithful(s, s.current, p, r)) && (s.current.category == 0 ==> zeroT(s.current))
+
+//@ func (*sqliToken).assign
+//@   requires 0 <= length && min(length, 31) <= len(value)
+//@   modifies t.category, t.pos, t.len, t.val
+//@   ensures  t.category == tokenType && t.pos == pos && t.len == min(length, 31) && aliases(t.val, value[:min(length, 31)])
+
+//@ func (*sqliToken).isUnaryOp
+//@   requires 0 <= t.len && t.len <= len(t.val)
+//@   modifies nothing
+//@   ensures  result ==> t.category == sqliTokenTypeOperator
+
+//@ func (*sqliToken).isArithmeticOp
+//@   requires 0 <= t.len && t.len <= len(t.val)
+//@   modifies nothing
+//@   ensures  result ==> t.category == sqliTokenTypeOperator && t.len == 1
+
+//@ func toUpperCmp
+//@   modifies nothing
+
+//@ func searchKeyword
+//@   modifies nothing
+//@   ensures  result == 0 || inSigma(result)
+//@   ensures  @fn2 result == sqliTokenTypeFunction ==> len(key) >= 2
+//@   ensures  @nonempty result != 0 ==> len(key) >= 1
+
+//@ func isBackslashEscaped
+//@   modifies nothing
+//@   loop 1 invariant -1 <= i && i < len(str) && 0 <= count && count <= len(str) - 1 - i
+//@   loop 1 decreases i + 1
+
+//@ func strLenSpn
+//@   requires 0 <= length && length <= len(s)
+//@   modifies nothing
+//@   ensures  [C01 C16] @span 0 <= result && result <= length && (forall k in [0, result): memberOf(s[k], accept)) && (result < length ==> !memberOf(s[result], accept))
+//@   loop 1 invariant 0 <= i && i <= length
+//@   loop 1 invariant [C01 C16] forall k in [0, i): memberOf(s[k], accept)
+//@   loop 1 decreases length - i
+
+//@ func strLenCSpn
+//@   requires 0 <= length && length <= len(s) && len(accept) == 256
+//@   modifies nothing
+//@   ensures  [C01 C16] @span 0 <= result && result <= length && (forall k in [0, result): accept[s[k]] != 1) && (result < length ==> accept[s[result]] == 1)
+//@   loop 1 invariant 0 <= i && i <= length
+//@   loop 1 invariant [C01 C16] forall k in [0, i): accept[s[k]] != 1
+//@   loop 1 decreases length - i
+
+// ---- lexers. Every lexer, started at offset p = s.pos < s.length, returns r with p < r <= length
+// and leaves in *s.current either the zero token (white space) or a faithful token inside [p, r).
+//@ spec lexOK(s *sqliState, r int) bool = wfS(s) && stepOK(s, old(s.pos), r) && s.current.category != 0
+
+//@ func (*sqliToken).parseStringCore
+//@   requires length == len(s) && 0 <= pos && 0 <= offset && pos + offset <= len(s)
+//@   modifies t.category, t.pos, t.len, t.val, t.strOpen, t.strClose
+//@   ensures  [C01 C16] @token t.category == sqliTokenTypeString && t.pos == pos + offset && 0 <= t.len && t.len <= 31 && aliases(t.val, s[pos+offset : pos+offset+t.len])
+//@   ensures  [C01 C16] @range pos + offset <= result && result <= length && t.pos + t.len <= result && (pos + offset < length ==> pos + offset < result)
+//@   ensures  [C01 C16] @marks t.strOpen == (offset > 0 ? delimiter : 0) && (t.strClose == 0 || t.strClose == delimiter)
+//@   loop 1 invariant suffixOf(str, s) && off(str) >= off(s) + pos + offset
+//@   loop 1 invariant t.strOpen == (offset > 0 ? delimiter : 0)
+//@   loop 1 decreases len(str)
+
+//@ func parseEolComment
+//@   requires wfS(s) && s.pos < s.length
+//@   modifies s.current.category, s.current.pos, s.current.len, s.current.val
+//@   ensures  [C01 C16] @lex lexOK(s, result) && s.current.category == sqliTokenTypeComment && s.current.pos == old(s.pos)
+
+//@ func parseMoney
+//@   requires wfS(s) && s.pos < s.length && s.input[s.pos] == '$'
+//@   modifies s.current.*
+//@   ensures  [C01 C16] @lex lexOK(s, result)
+
+//@ func parseOther
+//@   requires wfS(s) && s.pos < s.length
+//@   modifies s.current.category, s.current.pos, s.current.len, s.current.val
+//@   ensures  [C01 C16] @lex lexOK(s, result) && result == old(s.pos) + 1
+
+//@ func parseWhite
+//@   requires wfS(s) && s.pos < s.length && zeroT(s.current)
+//@   modifies nothing
+//@   ensures  result == s.pos + 1
+
+//@ func parseOperator1
+//@   requires wfS(s) && s.pos < s.length
+//@   modifies s.current.category, s.current.pos, s.current.len, s.current.val
+//@   ensures  [C01 C16] @lex lexOK(s, result) && result == old(s.pos) + 1 && s.current.category == sqliTokenTypeOperator
+
+//@ func parseByte
+//@   requires wfS(s) && s.pos < s.length && s.input[s.pos] in {'(', ')', ',', ';', '{', '}'}
+//@   modifies s.current.category, s.current.pos, s.current.len, s.current.val
+//@   ensures  [C01 C16] @lex lexOK(s, result) && result == old(s.pos) + 1
+
+//@ func parseHash
+//@   requires wfS(s) && s.pos < s.length && s.input[s.pos] == '#' && 0 <= s.statsCommentHash && s.statsCommentHash <= 2 * s.pos
+//@   modifies s.current.category, s.current.pos, s.current.len, s.current.val, s.statsCommentHash
+//@   ensures  [C01 C16] @lex lexOK(s, result)
+//@   ensures  [C01 C12] @stats s.statsCommentHash == old(s.statsCommentHash) + ((s.flags & sqliFlagSQLMysql) != 0 ? 2 : 1)
+
+//@ func parseDash
+//@   requires wfS(s) && s.pos < s.length && s.input[s.pos] == '-' && 0 <= s.statsCommentDDX && s.statsCommentDDX <= s.pos
+//@   modifies s.current.category, s.current.pos, s.current.len, s.current.val, s.statsCommentDDX
+//@   ensures  [C01 C16] @lex lexOK(s, result)
+//@   ensures  [C01 C12] @stats old(s.statsCommentDDX) <= s.statsCommentDDX && s.statsCommentDDX <= old(s.statsCommentDDX) + 1
+
+//@ func parseSlash
+//@   requires wfS(s) && s.pos < s.length
+//@   modifies s.current.category, s.current.pos, s.current.len, s.current.val
+//@   ensures  [C01 C16] @lex lexOK(s, result)
+
+//@ func parseBackSlash
+//@   requires wfS(s) && s.pos < s.length
+//@   modifies s.current.category, s.current.pos, s.current.len, s.current.val
+//@   ensures  [C01 C16] @lex lexOK(s, result)
+
+//@ func parseOperator2
+//@   requires wfS(s) && s.pos < s.length
+//@   modifies s.current.category, s.current.pos, s.current.len, s.current.val
+//@   ensures  [C01 C16] @lex lexOK(s, result)
+
+//@ func parseString
+//@   requires wfS(s) && s.pos < s.length
+//@   modifies s.current.category, s.current.pos, s.current.len, s.current.val, s.current.strOpen, s.current.strClose
+//@   ensures  [C01 C16] @lex lexOK(s, result) && s.current.category == sqliTokenTypeString
+
+//@ func parseWord
+//@   requires wfS(s) && s.pos < s.length && wordAccept(s.input[s.pos]) != 1
+//@   modifies s.current.*
+//@   ensures  [C01 C16] @lex lexOK(s, result)
+//@   loop 1 invariant 0 <= i && i <= s.current.len && wfS(s) && s.current.category == sqliTokenTypeBareWord && s.current.pos == s.pos &&
+//@                    s.current.len == min(length, 31) && aliases(s.current.val, s.input[s.pos : s.pos + s.current.len]) && 1 <= length && s.pos + length <= s.length
+//@   loop 1 decreases s.current.len - i
+
+//@ func parseVar
+//@   requires wfS(s) && s.pos < s.length
+//@   modifies s.current.*, s.pos
+//@   ensures  [C01 C16] @lex wfS(s) && stepOK(s, old(s.pos), result) && s.current.category == sqliTokenTypeVariable
+
+//@ func parseNumber
+//@   requires wfS(s) && s.pos < s.length && ((s.input[s.pos] >= '0' && s.input[s.pos] <= '9') || s.input[s.pos] == '.')
+//@   modifies s.current.category, s.current.pos, s.current.len, s.current.val
+//@   ensures  [C01 C16] @lex lexOK(s, result)
+//@   loop 1 invariant s.pos <= pos && pos <= s.length && start == s.pos
+//@   loop 1 decreases s.length - pos
+//@   loop 2 invariant s.pos < pos && pos <= s.length && start == s.pos && (pos - start == 1 ==> s.input[start] == '.')
+//@   loop 2 decreases s.length - pos
+//@   loop 3 invariant s.pos < pos && pos <= s.length && start == s.pos
+//@   loop 3 decreases s.length - pos
+
+//@ func parseTick
+//@   requires wfS(s) && s.pos < s.length
+//@   modifies s.current.category, s.current.pos, s.current.len, s.current.val, s.current.strOpen, s.current.strClose
+//@   ensures  [C01 C16] @lex lexOK(s, result)
+
+//@ func parseUString
+//@   requires wfS(s) && s.pos < s.length && wordAccept(s.input[s.pos]) != 1
+//@   modifies s.current.*, s.pos
+//@   ensures  [C01 C16] @lex wfS(s) && stepOK(s, old(s.pos), result) && s.current.category != 0
+
+//@ func parseQStringCore
+//@   requires wfS(s) && s.pos < s.length && wordAccept(s.input[s.pos]) != 1 && (offset == 0 || offset == 1)
+//@   modifies s.current.*
+//@   ensures  [C01 C16] @lex lexOK(s, result)
+
+//@ func parseQString
+//@   requires wfS(s) && s.pos < s.length && wordAccept(s.input[s.pos]) != 1
+//@   modifies s.current.*
+//@   ensures  [C01 C16] @lex lexOK(s, result)
+
+//@ func parseNqString
+//@   requires wfS(s) && s.pos < s.length && wordAccept(s.input[s.pos]) != 1
+//@   modifies s.current.*
+//@   ensures  [C01 C16] @lex lexOK(s, result)
+
+//@ func parseXString
+//@   requires wfS(s) && s.pos < s.length && wordAccept(s.input[s.pos]) != 1
+//@   modifies s.current.*
+//@   ensures  [C01 C16] @lex lexOK(s, result)
+
+//@ func parseBString
+//@   requires wfS(s) && s.pos < s.length && wordAccept(s.input[s.pos]) != 1
+//@   modifies s.current.*
+//@   ensures  [C01 C16] @lex lexOK(s, result)
+
+//@ func parseEString
+//@   requires wfS(s) && s.pos < s.length && wordAccept(s.input[s.pos]) != 1
+//@   modifies s.current.*
+//@   ensures  [C01 C16] @lex lexOK(s, result)
+
+//@ func parseBWord
+//@   requires wfS(s) && s.pos < s.length
+//@   modifies s.current.category, s.current.pos, s.current.len, s.current.val
+//@   ensures  [C01 C16] @lex lexOK(s, result)
+
+// ---- scanner state
+//@ spec freshState(s *sqliState, f int) bool = s.length == len(s.input) && s.flags == (f == 0 ? 9 : f) && s.pos == 0 && s.current == tv(s, 0) &&
+//@      len(s.fingerprint) == 0 && s.statsCommentDDX == 0 && s.statsCommentHash == 0 && s.statsFolds == 0 && s.statsTokens == 0 &&
+//@      zeroT(s.tokenVec[0]) && zeroT(s.tokenVec[1]) && zeroT(s.tokenVec[2]) && zeroT(s.tokenVec[3]) &&
+//@      zeroT(s.tokenVec[4]) && zeroT(s.tokenVec[5]) && zeroT(s.tokenVec[6]) && zeroT(s.tokenVec[7])
+
+//@ func sqliInit
+//@   modifies s.*, s.tokenVec[*].*
+//@   ensures  [C01 C05 C12] @fullstate aliases(s.input, input) && freshState(s, flags)
+
+//@ func (*sqliState).reset
+//@   modifies s.*, s.tokenVec[*].*
+//@   ensures  [C01 C05 C12] @fullstate aliases(s.input, old(s.input)) && freshState(s, flags)
+
+//@ func (*sqliState).tokenize
+//@   requires wfS(s) && statsOK(s)
+//@   modifies s.pos, s.statsTokens, s.statsCommentDDX, s.statsCommentHash, s.current.*
+//@   ensures  wfS(s) && statsOK(s) && sameScan(s) && old(s.pos) <= s.pos && s.statsFolds == old(s.statsFolds)
+//@   ensures  [C01 C16] @step result ==> stepOK(s, old(s.pos), s.pos) && s.current.category != 0 && s.statsTokens == old(s.statsTokens) + 1
+//@   ensures  [C01 C16] @end !result ==> (s.length == 0 || s.pos == s.length) && s.statsTokens == old(s.statsTokens)
+//@   loop 1 invariant wfS(s) && statsOK(s) && sameScan(s) && old(s.pos) <= s.pos && zeroT(s.current) && s.statsTokens == old(s.statsTokens) && s.statsFolds == old(s.statsFolds)
+//@   loop 1 decreases s.length - s.pos
+
+//@ func (*sqliState).merge
+//@   requires wfT(tokenA) && wfT(tokenB)
+//@   modifies tokenA.category, tokenA.pos, tokenA.len, tokenA.val
+//@   ensures  wfT(tokenA) && tokenA.pos == old(tokenA.pos)
+//@   ensures  [C01 C08] @class result ==> inSigma(tokenA.category) && tokenA.category != 0
+//@   ensures  !result ==> tokenA.category == old(tokenA.category) && tokenA.len == old(tokenA.len) && aliases(tokenA.val, old(tokenA.val))
